@@ -70,7 +70,8 @@ class UnitarySerializedEmulator(IndependentSubcircuitsBackend):
                 if param.classical:
                     argv.append(val)
                 else:
-                    qind.append(val.alias_index)
+                    # follow map aliases to the index in the fundamental register
+                    qind.append(val.resolve_qubit()[1])
 
             # This is the dense submatrix
             dsub = gatedef.ideal_unitary(*argv)
